@@ -36,6 +36,10 @@ func init() {
 		QuickRuns: 1500, ThoroughRuns: 150000, QuickWall: 75 * time.Second, ThoroughWall: 20 * time.Minute,
 		Rule: "one evaluation = one seeded simulated ROUTE run with 0..3 stream faults (target cancel / transport break / clean close, source EOF / error / break) placed by the scheduler at arbitrary decisions, followed by reconnection in any order. non-trivial = messages and acks flowed and at least one fault fired",
 		Real: routeReal, Stub: routeStub, Assume: commonAssume})
+	addSpec(&propSpec{ID: "C05", Profiles: []string{"C05sys", "C05ring"}, Level: "exploration",
+		QuickRuns: 6000, ThoroughRuns: 400000, QuickWall: 75 * time.Second, ThoroughWall: 20 * time.Minute,
+		Rule: "two halves. C05sys: one evaluation = one seeded simulated ROUTE run (no stream failures, ring capacity knob 1..8 or 1024) in which every translation the ack loop makes (observed at ShardManager.DeliverAckToShardOwner through a recording decorator) is compared with the harness's own map of proxy id -> (source, original id) for that stream, while the scheduler interleaves the send loop's Append between the ack loop's AggregateUpTo and Discard. C05ring: one evaluation = one seeded append/aggregate/discard history (capacities <1..16, 1-3 source shards, contiguous and gapped proxy ids, watermarks below/inside/above the stored range) against a slice reference model; this half is model-based op-sequence testing of a sequential component, not simulation. distinct = distinct trace fingerprint; non-trivial = messages and acks flowed (sys) / at least 3 operations (ring)",
+		Real: append(append([]string{}, routeReal...), "proxy.proxyIDRingBuffer driven directly (C05ring, through an in-package accessor added by the build overlay)"), Stub: routeStub, Assume: commonAssume})
 	addSpec(&propSpec{ID: "C08", Profiles: []string{"C08", "C04"}, Level: "exploration",
 		QuickRuns: 1500, ThoroughRuns: 150000, QuickWall: 75 * time.Second, ThoroughWall: 20 * time.Minute,
 		Rule: "one evaluation = one seeded simulated ROUTE run with stream churn (successor incarnations opening while predecessors tear down); oracles: no unrecovered panic, functional probes on the newest incarnation, empty registries and no live task after all streams ended",
